@@ -92,6 +92,50 @@ def wrap_autoescape(case, rnd, new_id):
                        globals_={k: v for k, v in case["globals"].items() if v["t"] != "builtin"})
 
 
+def position_family(start_id):
+    """Deterministic family: an escaping-mode-sensitive constant expression in every syntactic position the
+    optimiser folds through (positional / keyword argument, list / tuple / dict item, subscript, inline-if
+    branch, call argument, test operand ...), printed directly, assigned first, and used as an if-test, inside
+    no / static-on / static-off / runtime-decided autoescape blocks, with autoescaping on and off."""
+    C, N, F = J.Const, J.Name, J.Filter
+    safe_b = F(C("<b>"), "safe")
+    sens = [J.Concat(safe_b, C("<i>")), J.Concat(C("<i>"), C("x&")), J.Concat(safe_b, C(1)), J.Concat(C("<i>"), safe_b, C("&")),
+            F(J.List([safe_b, C("<i>")]), "join", [C("&")]), J.Bin("+", safe_b, C("<j>"))]
+    positions = [
+        lambda e: e,
+        lambda e: F(C(None), "default", [e]),
+        lambda e: F(C(None), "default", [], [("default_value", e)]),
+        lambda e: F(C(""), "default", [], [("default_value", e), ("boolean", C(True))]),
+        lambda e: F(J.List([e, C("x<")]), "join", [C("|")]),
+        lambda e: F(J.List([C("x<"), C("y")]), "join", [e]),
+        lambda e: F(J.List([C("x<"), C("y")]), "join", [], [("d", e)]),
+        lambda e: J.Getitem(J.Dict([(C("k"), e)]), C("k")),
+        lambda e: J.Getitem(J.List([e]), C(0)),
+        lambda e: J.Getitem(J.List([e, C(1)], tup=True), C(0)),
+        lambda e: J.Cond(C(True), e, C("n<")),
+        lambda e: J.Cond(C(False), C("n<"), e),
+        lambda e: J.Call(N("f2"), [e]),
+        lambda e: J.Getitem(J.Call(N("dict"), [], [("a", e)]), C("a")),
+        lambda e: F(e, "string"),
+        lambda e: J.Concat(e, C("t<")),
+        lambda e: J.Or(C(""), e),
+        lambda e: J.And(C(1), e),
+        lambda e: F(F(C(None), "default", [], [("default_value", e)]), "default", [C("zz")]),
+    ]
+    out = []
+    data = {"f2": J.vfn("f2", "arg0", J.vint(7))}
+    for e in sens:
+        for pos in positions:
+            x = pos(e)
+            for body in ([J.Out(x)], [J.Set("v", x), J.Out(N("v")), J.If([x], [[J.Text("T")]], [J.Text("F")])]):
+                for auto in (False, True):
+                    for sw in (None, C(True), C(False), N("ae")):
+                        b = copy.deepcopy(body) if sw is None else [J.Autoescape(sw, copy.deepcopy(body))]
+                        datas = [dict(data)] if sw is None or sw["k"] == "const" else [dict(data, ae=J.vbool(True)), dict(data, ae=J.vbool(False))]
+                        out.append(J.make_case(start_id + len(out), {"main": J.template(b, auto)}, "main", datas))
+    return out
+
+
 def text_of(o):
     return ("err", o["err"]) if o["err"] else ("out", J.expected_text(o["out"]))
 
@@ -152,6 +196,11 @@ def run(ck):
         b.pop("_from", None)
     jrun.conformance(ck, B, obsB, VARIANTS, fingerprint)
     jrun.conformance(ck, wrapped, {k: v for k, v in obsA.items() if k[0] > len(base)}, VARIANTS, fingerprint)
+    fam = position_family(len(A) + len(B) + 1)
+    obsF, rF = jrun.spec_results("C08", fam, name="positions", timeout=3000)
+    ck.add_tlc(rF, f"Jinja.tla mode-sensitive constants in every foldable position ({len(fam)} programs)")
+    jrun.conformance(ck, fam, obsF, VARIANTS, fingerprint)
+    ck.extra["position_family"] = len(fam)
     ck.extra["programs"] = len(A)
     ck.extra["constant_rich_programs"] = len(B)
     ck.exhaustive = False
